@@ -438,8 +438,11 @@ def run(ctx):
         ctx.rule(rid, doc)
     ctx.assume("finite floats (no NaN); positive epsilons; division by the same positive value preserves order up to rounding (as the property grants)")
     tot_s = tot_t = 0
+    # this rule interprets comprehensions itself (shared iterators matter): keep them as written
+    from ..loader import Repo
+    repo = Repo(ctx.repo.root, comp=False)
     for clsname, eps in (("ParetoDominance", False), ("EpsilonDominance", True)):
-        r = analyse(ctx, ctx.repo, clsname, eps)
+        r = analyse(ctx, repo, clsname, eps)
         if r:
             tot_s += r[0]
             tot_t += r[1]
